@@ -10,7 +10,8 @@ MAX = 65535
 WDS = ["explicit", "trim", "all", "all-tag", "impl-tag"]
 SEARCHDIR = os.path.join(paths.REPO, "tests", "modules", "yang")
 
-TYPES = ["string", "uint8", "int32", "uint64", "boolean", "enum", "dec64", "bits", "empty", "binary"]
+TYPES = ["string", "uint8", "int32", "uint64", "boolean", "enum", "dec64", "bits", "empty", "binary",
+         "int8", "int16", "int64", "uint16", "uint32", "idref", "union", "instid", "leafref"]
 
 
 def ident(rng, lo=1, hi=8):
@@ -21,7 +22,11 @@ def type_yang(t):
     """the whole type statement"""
     return {"string": "type string;", "uint8": "type uint8;", "int32": "type int32;", "uint64": "type uint64;", "boolean": "type boolean;",
             "enum": "type enumeration {enum a; enum bb; enum c-c;}", "dec64": "type decimal64 {fraction-digits 2;}",
-            "bits": "type bits {bit x; bit y; bit z;}", "empty": "type empty;", "binary": "type binary;"}[t]
+            "bits": "type bits {bit x; bit y; bit z;}", "empty": "type empty;", "binary": "type binary;",
+            "int8": "type int8;", "int16": "type int16;", "int64": "type int64;", "uint16": "type uint16;", "uint32": "type uint32;",
+            "idref": "type identityref {base idb;}", "union": "type union {type int32; type enumeration {enum u1; enum u2;} type string;}",
+            "instid": "type instance-identifier {require-instance false;}",
+            "leafref": "type leafref {path \"/p:lrtarget\"; require-instance false;}"}[t]
 
 
 def value_of(rng, t):
@@ -36,11 +41,20 @@ def value_of(rng, t):
     if t == "bits": return rng.choice(["", "x", "x z", "x y z", "y"])
     if t == "empty": return None
     if t == "binary": return rng.choice(["", "YQ==", "aGVsbG8=", "AAECAwQF"])
+    if t == "int8": return str(rng.choice([0, -128, 127, rng.randrange(-128, 128)]))
+    if t == "int16": return str(rng.choice([0, -32768, 32767, rng.randrange(-32768, 32768)]))
+    if t == "int64": return str(rng.choice([0, -9223372036854775808, 9223372036854775807, rng.randrange(-2**62, 2**62)]))
+    if t == "uint16": return str(rng.choice([0, 65535, rng.randrange(65536)]))
+    if t == "uint32": return str(rng.choice([0, 4294967295, rng.randrange(2**32)]))
+    if t == "idref": return rng.choice(["ida", "idb2", "idc"])
+    if t == "union": return rng.choice(["5", "-7", "u1", "u2", "text", "", "12x"])
+    if t == "instid": return rng.choice(["/MOD:lrtarget[.='t1']", "/MOD:lrtarget[.='nope']"])
+    if t == "leafref": return rng.choice(["t1", "t2", "zz"])
     return "v"
 
 
 def default_of(rng, t):
-    if t in ("empty",):
+    if t in ("empty", "instid", "leafref", "idref", "union"):
         return None
     v = value_of(rng, t)
     if v is None or any(c in v for c in "\"\\\n") or v != v.strip() or (t == "string" and not v):
@@ -57,7 +71,7 @@ class Gen:
         out = list(forced)
         while len(out) < n:
             c = ident(self.rng)
-            if c not in out and c not in ("input", "output"):
+            if c not in out and c not in ("input", "output", "lrtarget"):
                 out.append(c)
         self.rng.shuffle(out)
         return out
@@ -125,20 +139,24 @@ class Gen:
                 if v not in vals:
                     vals.append(v)
             for v in vals:
-                out.append((me, v))
+                out.append((me, v.replace("MOD", self.mod) if v else v))
         else:
             r = rng.random()
             if nd.get("d") is not None and under_np:
                 self.has_default = True
             if r < 0.6:
-                out.append((me, value_of(rng, nd["t"])))
+                v = value_of(rng, nd["t"])
+                out.append((me, v.replace("MOD", self.mod) if v else v))
             elif r < 0.75 and nd.get("d") is not None:
                 out.append((me, nd["d"]))            # explicit value equal to the default
 
 
-def module_text(mod, body, rev=None):
-    return "module %s {\n  yang-version 1.1;\n  namespace \"urn:%s\";\n  prefix p;\n%s%s\n}\n" % (
-        mod, mod, ("  revision %s;\n" % rev) if rev else "", body)
+PRELUDE = "  identity idb;\n  identity ida {base idb;}\n  identity idb2 {base idb;}\n  identity idc {base ida;}\n  leaf-list lrtarget {type string;}\n"
+
+
+def module_text(mod, body, rev=None, prelude=False):
+    return "module %s {\n  yang-version 1.1;\n  namespace \"urn:%s\";\n  prefix p;\n%s%s%s\n}\n" % (
+        mod, mod, ("  revision %s;\n" % rev) if rev else "", PRELUDE if prelude else "", body)
 
 
 def spec_str(items):
@@ -171,8 +189,8 @@ def gen_cases(cx):
         mod = ident(rng, 3, 8).replace("-", "x")
         g = Gen(rng, mod, rng.choice([1, 2, 3, 4]), rng.choice([2, 3, 5]))
         tops = [g.node(n, 0) for n in g.names(rng.randrange(1, 5))]
-        yang = module_text(mod, "\n".join(g.yang(t) for t in tops))
-        items = []
+        yang = module_text(mod, "\n".join(g.yang(t) for t in tops), prelude=True)
+        items = [("/%s:lrtarget" % mod, v) for v in ("t1", "t2") if rng.random() < 0.7]
         for t in tops:
             g.data(t, "", items)
         # implicit default nodes may appear anywhere below a non-presence path: any default in the schema counts
